@@ -297,6 +297,18 @@ def work_generated(ctx, seed):
                 break
 
 
+def work_patho(ctx, k):
+    """the labelled pathological (valid) shapes that have fused shells, zero coefficients or shared primitives: the same auxiliary
+    basis from every representation"""
+    pool = [gen.patho_p_only_primitive_in_sp, gen.patho_mixed_fused, gen.patho_unsorted_fused, gen.patho_plain_then_fused_shared,
+            gen.patho_respelled_shared, gen.patho_near_equal_exponents, gen.patho_uncontracted_block, gen.patho_block_general_shared_column]
+    f = pool[k % len(pool)]
+    rng = random.Random(ctx.seed * 47 + k)
+    b = f(rng)
+    # elements beyond He have lval >= 1; keep the element the generator chose but make sure it has a p function to couple with
+    check_basis(ctx, b, 'patho:%s:%d' % (f.__name__, k), rng)
+
+
 def run(ctx):
     ctx.rule = ('autoaux_basis / autoabs_basis on orbital store basis sets (elements chosen around the Z thresholds) and generated '
                 'orbital dictionaries, each in seven representations (original, general, uncontracted-general, spdf-split, sorted, '
@@ -314,6 +326,7 @@ def run(ctx):
         pairs = [(n, md[n]['latest_version']) for n in names]
     store.parallel(ctx, work_store, pairs)
     store.parallel(ctx, work_generated, [ctx.seed * 311 + i for i in range(ctx.budget(60, 3000))])
+    store.parallel(ctx, work_patho, list(range(ctx.budget(16, 160))))
 
 
 def replay(ctx, rec):
